@@ -87,6 +87,10 @@ SCHEMA_LAYOUTS = [
                   'x/t.xml': _sch(_T('ta')), 'r.xml': _sch(_K('kr')),
                   't.xml': _sch(_T('tdecoy')), 'x/y/r.xml': _sch(_K('kdecoy'))},
      [['km', 'kr', 'kt'], ['ta']]),
+    ('a/main.xml', {'a/main.xml': _sch('<import src="types.xml"/>' + _K('kt'), extends='../b/base.xml'),
+                    'a/types.xml': _sch(_T('ta')),
+                    'b/base.xml': _sch('<import src="types.xml"/>' + _K('kb')),
+                    'b/types.xml': _sch(_T('tb'))}, [['kb', 'kt'], ['ta', 'tb']]),
 ]
 
 
